@@ -148,6 +148,9 @@ struct Faults {
     /// the io::ErrorKind a key read fault is reported with when the keys come
     /// from a real `LineLender` over a failing reader (`ksrc: "lines"`)
     kinds: HashMap<(usize, usize), io::ErrorKind>,
+    /// the io::ErrorKind of a fault of the directly implemented lenders (`ekind`,
+    /// default Other), by (source, pass, idx)
+    dkinds: HashMap<(u8, usize, usize), io::ErrorKind>,
     /// keys are the lines of a text read through sux's `LineLender`
     lines: bool,
     /// (pass, idx) of key read faults that strike in the middle of line idx
@@ -171,8 +174,12 @@ impl Faults {
                         "denied" => io::ErrorKind::PermissionDenied,
                         "broken" => io::ErrorKind::BrokenPipe,
                         "timeout" => io::ErrorKind::TimedOut,
+                        // kinds that some readers treat as "try again": the lenders must not
+                        "interrupted" => io::ErrorKind::Interrupted,
+                        "wouldblock" => io::ErrorKind::WouldBlock,
                         _ => io::ErrorKind::Other,
                     };
+                    f.dkinds.insert((src, get_usize(x, "pass"), get_usize(x, "idx")), kind);
                     if src == KEY {
                         f.kinds.insert((get_usize(x, "pass"), get_usize(x, "idx")), kind);
                         if x.get("mid").and_then(|v| v.as_bool()).unwrap_or(false) {
@@ -415,7 +422,8 @@ impl Lender for KeyLender {
         let pos = self.pos;
         if self.faults.reads.contains(&(KEY, self.pass, pos)) {
             self.pos += 1;
-            return Some(Err(io::Error::other(format!("key:{}:{}", self.pass, pos))));
+            let kind = *self.faults.dkinds.get(&(KEY, self.pass, pos)).unwrap_or(&io::ErrorKind::Other);
+            return Some(Err(io::Error::new(kind, format!("key:{}:{}", self.pass, pos))));
         }
         if pos >= self.seq.n {
             return None;
@@ -483,7 +491,8 @@ impl<W: WordOf> Lender for ValLender<W> {
         let pos = self.pos;
         if self.faults.reads.contains(&(VAL, self.pass, pos)) {
             self.pos += 1;
-            return Some(Err(io::Error::other(format!("val:{}:{}", self.pass, pos))));
+            let kind = *self.faults.dkinds.get(&(VAL, self.pass, pos)).unwrap_or(&io::ErrorKind::Other);
+            return Some(Err(io::Error::new(kind, format!("val:{}:{}", self.pass, pos))));
         }
         if self.f.vn.map_or(false, |vn| pos >= vn) {
             return None;
